@@ -272,6 +272,16 @@ pub enum Step {
     /// an application payload delivered over a handshaken flow in several segments (cut positions
     /// monotone-mapped; biased towards CR / LF / SP / ':' boundaries by `snap`)
     SegSplit { flow: u8, pay: Pay, cuts: Vec<u16>, snap: bool },
+    /// consistent IPv4 packet whose header options are a hostile TLV list (Record Route 7,
+    /// Timestamp 68, LSRR 131, SSRR 137, Router Alert 148, Security 130, NOP, EOL, unknown kinds;
+    /// length bytes 0, 1, 2, correct, beyond the options area, 255), padded to a multiple of 4;
+    /// the upper layer is an echo request / a SYN / a UDP datagram / raw bytes
+    Ip4Opt { opts: Hex, upper: u8, payload: Hex },
+    /// IPv6 packet with a chain of extension headers (hop-by-hop 0, routing 43, fragment 44, ESP 50,
+    /// AH 51, destination options 60, mobility 135, HIP 139, shim6 140): per header the type, the
+    /// real body length in 8-byte units, an optional lying Hdr Ext Len, the body fill; then the
+    /// upper-layer protocol number and its bytes; optionally cut short
+    Ip6Ext { hdrs: Vec<(u8, u8, Option<u8>, u8)>, last: u8, payload: Hex, trunc: Option<u16> },
     /// ICMP / ICMPv6 error message from the client quoting the header of a packet the responder
     /// would have sent to it: a TCP segment of flow `flow` (server port -> client port, sequence =
     /// the flow's cookie) or a UDP datagram (`sport` = the server's port, `dport` = the client's)
@@ -288,6 +298,8 @@ impl Step {
             Step::Arp { .. } => "arp".into(),
             Step::Ip4 { .. } => "ip4-lies".into(),
             Step::Ip6 { .. } => "ip6-lies".into(),
+            Step::Ip6Ext { .. } => "ip6-extension-headers".into(),
+            Step::Ip4Opt { .. } => "ip4-hostile-options".into(),
             Step::Icmp { .. } => "icmp".into(),
             Step::Ns { .. } => "nd-ns".into(),
             Step::Udp { pay, .. } => format!("udp/{}", pay.kind()),
@@ -323,6 +335,21 @@ pub fn step_leaf() -> BoxedStrategy<Step> {
             .prop_map(|(proto, ver_ihl, total_len, flags_frag, opt_words, p)| Step::Ip4 { proto, ver_ihl, total_len, flags_frag, opt_words, payload: Hex(p) }),
         2 => (prop_oneof![1 => Just(P_ICMP6), 1 => Just(P_TCP), 1 => Just(P_UDP), 1 => any::<u8>()], prop::option::of(prop_oneof![1 => 0u16..64, 1 => any::<u16>()]), prop_oneof![5 => Just(6u8), 1 => 0u8..16], vec(any::<u8>(), 0..64))
             .prop_map(|(next, payload_len, ver, p)| Step::Ip6 { next, payload_len, ver, payload: Hex(p) }),
+        1 => (vec((prop::sample::select(vec![0u8, 43, 44, 50, 51, 60, 60, 0, 135, 139, 140]), prop_oneof![3 => Just(0u8), 1 => 1u8..4], prop::option::weighted(0.3, prop_oneof![2 => 0u8..6, 1 => Just(255u8), 1 => any::<u8>()]), prop::sample::select(vec![0u8, 1, 0xff])), 1..4), prop::sample::select(vec![58u8, 6, 17, 59, 0, 60, 41, 4]), prop_oneof![2 => vec(any::<u8>(), 0..40), 1 => Just(vec![128, 0, 0, 0, 0, 1, 0, 1, b'a', b'b']), 1 => Just(vec![0x9c, 0x40, 0, 80, 0, 0, 0, 1, 0, 0, 0, 0, 0x50, 2, 0x20, 0, 0, 0, 0, 0])], prop::option::weighted(0.25, any::<u16>()))
+            .prop_map(|(hdrs, last, payload, trunc)| Step::Ip6Ext { hdrs, last, payload: Hex(payload), trunc }),
+        1 => (vec((prop::sample::select(vec![7u8, 68, 131, 137, 148, 130, 1, 0, 7, 68, 0x94, 0x44]), prop_oneof![3 => Just(None), 2 => prop::sample::select(vec![0u8, 1, 2, 3, 4, 39, 40, 41, 255]).prop_map(Some)], vec(any::<u8>(), 0..12)), 1..5), any::<u8>(), vec(any::<u8>(), 0..24))
+            .prop_map(|(tl, upper, payload)| {
+                let mut o = Vec::new();
+                for (k, lie, body) in tl {
+                    o.push(k);
+                    if k == 0 || k == 1 {
+                        continue;
+                    }
+                    o.push(lie.unwrap_or((2 + body.len()) as u8));
+                    o.extend_from_slice(&body);
+                }
+                Step::Ip4Opt { opts: Hex(o), upper, payload: Hex(payload) }
+            }),
         3 => (prop_oneof![2 => Just(8u8), 2 => Just(128u8), 1 => Just(0u8), 1 => Just(129u8), 1 => Just(135u8), 1 => Just(136u8), 1 => any::<u8>()], prop_oneof![3 => Just(0u8), 1 => any::<u8>()], prop_oneof![3 => vec(any::<u8>(), 0..64), 1 => vec(any::<u8>(), 64..1500)])
             .prop_map(|(typ, code, rest)| Step::Icmp { typ, code, rest: Hex(rest) }),
         3 => (prop_oneof![4 => Just(0u8), 1 => any::<u8>()], prop_oneof![2 => (any::<[u8; 4]>(), any::<[u8; 16]>(), ndp_options()).prop_map(|(r, t, o)| { let mut v = r.to_vec(); v.extend_from_slice(&t); v.extend_from_slice(&o); v }), 1 => vec(any::<u8>(), 0..24)], any::<bool>())
@@ -423,6 +450,51 @@ impl<'a> World<'a> {
                 h.payload_len = *payload_len;
                 h.ver = *ver;
                 eth(&net.dmac, &net.cmac, ET_V6, &ip6(&h, payload))
+            }
+            Step::Ip4Opt { opts, upper, payload } => {
+                let (c, sv) = match (&net.cip, &net.sip) {
+                    (IpAddr::V4(c), IpAddr::V4(s)) => (c.octets(), s.octets()),
+                    _ => ([192, 0, 2, 1], [192, 0, 2, 2]),
+                };
+                let (proto, l4): (u8, Vec<u8>) = match upper % 4 {
+                    0 => {
+                        let mut rest = vec![0, 7, 0, 9];
+                        rest.extend_from_slice(payload);
+                        (P_ICMP, icmp4(8, 0, &rest))
+                    }
+                    1 => (P_TCP, tcp_seg(&net.cip, &net.sip, &TcpH::new(40123, 80, 5, 0, F_SYN), &[])),
+                    2 => (P_UDP, udp_dgram(&net.cip, &net.sip, 40123, 3478, payload, None)),
+                    _ => (P_TCP, payload.0.clone()),
+                };
+                let mut h = Ip4H::new(c, sv, proto);
+                let mut o = opts.0.clone();
+                o.truncate(40);
+                while o.len() % 4 != 0 {
+                    o.push(0);
+                }
+                h.options = o;
+                eth(&net.dmac, &net.cmac, ET_V4, &ip4(&h, &l4))
+            }
+            Step::Ip6Ext { hdrs, last, payload, trunc } => {
+                let (c, sv) = match (&net.cip, &net.sip) {
+                    (IpAddr::V6(c), IpAddr::V6(s)) => (c.octets(), s.octets()),
+                    _ => ([0x20; 16], [0x21; 16]),
+                };
+                let first = hdrs.first().map(|h| h.0).unwrap_or(*last);
+                let mut body = Vec::new();
+                for (i, (_t, units, lie, fill)) in hdrs.iter().enumerate() {
+                    let next = hdrs.get(i + 1).map(|h| h.0).unwrap_or(*last);
+                    body.push(next);
+                    body.push(lie.unwrap_or(*units));
+                    body.extend(std::iter::repeat(*fill).take(6 + 8 * (*units as usize).min(8)));
+                }
+                body.extend_from_slice(payload);
+                if let Some(t) = trunc {
+                    let k = pick(*t, body.len() + 1);
+                    body.truncate(k);
+                }
+                let h = Ip6H::new(c, sv, first);
+                eth(&net.dmac, &net.cmac, ET_V6, &ip6(&h, &body))
             }
             Step::Icmp { typ, code, rest } => {
                 if net.is_v4() {
